@@ -267,11 +267,16 @@ func (p *poller) readWriteLoop() {
 				c := p.getConn(fd)
 				if c != nil {
 					if ev.Events&epollEventsWrite != 0 {
-						if c.onConnected == nil {
+						switch onConnected, connErr := c.takeOnConnected(ev.Events); {
+						case onConnected == nil:
 							_ = c.flush()
-						} else {
-							c.onConnected(c, nil)
-							c.onConnected = nil
+						case connErr != nil:
+							// the connect failed: report the failure instead of success.
+							onConnected(c, connErr)
+							_ = c.closeWithError(connErr)
+							continue
+						default:
+							onConnected(c, nil)
 							c.resetRead()
 						}
 						// A writing event without a reading event would leave
@@ -514,6 +519,31 @@ func newPoller(g *Engine, isListener bool, index int) (*poller, error) {
 	}
 
 	return p, nil
+}
+
+// takeOnConnected returns the pending dial callback, if any, and the error of
+// the connect when the event carries an error condition.
+//
+//go:norace
+func (c *Conn) takeOnConnected(events uint32) (func(c *Conn, err error), error) {
+	c.mux.Lock()
+	defer c.mux.Unlock()
+	h := c.onConnected
+	if h == nil || c.closed {
+		return nil, nil
+	}
+	c.onConnected = nil
+	if events&epollEventsError != 0 {
+		soErr, err := syscall.GetsockoptInt(c.fd, syscall.SOL_SOCKET, syscall.SO_ERROR)
+		if err == nil && soErr != 0 {
+			err = syscall.Errno(soErr)
+		}
+		if err == nil {
+			err = io.EOF
+		}
+		return h, err
+	}
+	return h, nil
 }
 
 //go:norace
